@@ -22,6 +22,8 @@ package main
 //                                                              -> Scope.varnames / forEach, BUILD_DEFS checks
 //   c07.shared-distfile  the same distfile with different hashes in all packages (-Cglobal)
 //   c07.plist        PLIST with many files, directories and conditions -> Package.loadPlistDirs
+//   c07.vargroups    a *.mk file with a _VARGROUPS section that lists undefined/unused variables
+//                                                              -> forEachStringMkLine, copyStringMkLine, VargroupsChecker.ignore
 //   c07.subst        two SUBST blocks with foreign variables   -> substScope.finish
 //
 // Variants that trigger the three recorded findings (docs/C07.md) are only
@@ -177,6 +179,12 @@ func c07GenTree(r *Rng, root string, index int) (*GenTree, bool) {
 		g.feat("c07.options")
 		mk = strings.Replace(mk, final, strings.Join(add, "\n")+"\n"+final, 1)
 		g.Write(p+"/Makefile", mk)
+
+		// a _VARGROUPS section whose declarations do not match the file (vargroups.go: forEachStringMkLine, ignore)
+		g.put(p+"/vargroup.mk", lines(cvsID, "", "_VARGROUPS+=\t\tc07grp", "_USER_VARS.c07grp=\tC07_USER_A C07_USER_B", "_PKG_VARS.c07grp=\tC07_PKG_A",
+			"_DEF_VARS.c07grp=\tC07_DEF_Z C07_DEF_A C07_DEF_M C07_DEF_B", "_USE_VARS.c07grp=\tC07_USE_Z C07_USE_A C07_USE_M", "_IGN_VARS.c07grp=\tC07_IGN_* C07_OTHER_* C07_X?",
+			"", "C07_PKG_A?=\t${C07_USER_A} ${C07_USER_B} ${C07_IGN_1} ${C07_OTHER_2} ${C07_UNLISTED_Z} ${C07_UNLISTED_A}", "C07_UNLISTED_DEF=\tyes"))
+		g.feat("c07.vargroups")
 
 		// the same distfile with another hash in every package
 		di := g.Read(p + "/distinfo")
